@@ -20,6 +20,11 @@ import (
 // C13 — the gRPC service answers each query of a batch like the library, in order: real `updog server`
 // processes, every batch of length 0..3 over 8 queries x 5 id patterns x server options x index files.
 
+// c13Long: a value of n bytes; values of different length or ending share their first bytes.
+func c13Long(n int, end string) string {
+	return strings.Repeat("v", n-len(end)) + end
+}
+
 func c13Files() [][]model.Row {
 	return [][]model.Row{
 		{{"a": "1", "b": "2", "c": "foo"}, {"a": "1", "b": "3", "c": "bar"}, {"a": "5", "b": "2", "c": "foo"}, {"c": "quux"}},
@@ -36,6 +41,8 @@ func c13Files() [][]model.Row {
 		// column names with blanks: "first name" next to "first" and "name" (a group-by list must not be identified by its
 		// names glued together with blanks, commas, ...)
 		{{"first name": "ann lee", "first": "ann", "name": "lee", "a": "1", "b": "2"}, {"first name": "bob", "first": "bob", "name": "", "a": "1"}, {"first": "ann", "name": "kim", "a": "2", "b": "2"}, {"first name": "ann", "first,name": "x", "a": "1", "b": "3"}},
+		// values longer than any excerpt a server may make of them for a log or an error text, alike in their first 64 / 255 bytes
+		{{"a": c13Long(65, "x"), "b": c13Long(300, "x")}, {"a": c13Long(64, ""), "b": c13Long(300, "x")}, {"a": c13Long(65, "x"), "b": c13Long(300, "y")}, {"a": c13Long(65, "y"), "b": c13Long(256, "")}, {"a": c13Long(100, "x")}},
 	}
 }
 
@@ -54,12 +61,17 @@ type c13Q struct {
 }
 
 func c13Queries(file int) []c13Q {
-	a1 := model.Eq("a", map[int]string{0: "1", 1: "x", 2: "bc", 3: "3", 4: "1"}[file])
-	bq := model.Eq("b", map[int]string{0: "2", 1: "é", 2: "é", 3: "17", 4: "2"}[file])
+	a1 := model.Eq("a", map[int]string{0: "1", 1: "x", 2: "bc", 3: "3", 4: "1", 5: c13Long(65, "x")}[file])
+	bq := model.Eq("b", map[int]string{0: "2", 1: "é", 2: "é", 3: "17", 4: "2", 5: c13Long(300, "x")}[file])
 	q1, q2 := c13Q{a1, []string{"b"}}, c13Q{map[bool]*model.Expr{false: model.Not(a1), true: model.Not(model.Eq("a", "nomatch"))}[file == 2], map[bool][]string{false: {"a", "b"}, true: {"a", "ab"}}[file == 2]}
 	if file == 4 {
 		// the same expression grouped by one column with a blank in its name, and by the two columns that spell it
 		q1, q2 = c13Q{a1, []string{"first name"}}, c13Q{a1, []string{"first", "name"}}
+	}
+	q6 := c13Q{model.Not(model.Not(bq)), []string{"b", "b"}}
+	if file == 4 {
+		// ... and by the ONE column whose name is those two joined with a comma
+		q6 = c13Q{a1, []string{"first,name"}}
 	}
 	return []c13Q{
 		{a1, nil},
@@ -68,7 +80,7 @@ func c13Queries(file int) []c13Q {
 		{model.Eq("a", "nomatch"), []string{"a"}},
 		{model.Or(a1, bq), nil},
 		{model.And(model.Or(a1, bq), model.Not(model.And(a1, bq))), []string{"a"}},
-		{model.Not(model.Not(bq)), []string{"b", "b"}},
+		q6,
 		{model.Eq("nosuchcolumn", "1"), nil}, // invalid
 		// invalid, but next to an operand that could decide the AND on its own (a value that occurs nowhere): still invalid
 		{model.And(model.Eq("a", "nomatch"), model.Eq("nosuchcolumn", "1")), nil},
@@ -272,6 +284,7 @@ func c13CheckDriver(w *c13World, c c13Case) (viol string) {
 			return "error"
 		}
 		cols, _ := rows.Columns()
+		cols = append([]string{}, cols...)
 		s, err := scanAll(rows)
 		if err != nil {
 			return "scan error: " + err.Error()
@@ -476,7 +489,7 @@ func c13Run(ctx *rt.Ctx) []*rt.Violation {
 	}
 	outs := rt.RunJobs(ctx, jobs, rt.SpawnOpt{})
 	vs := rt.Collect(ctx, outs, nil)
-	ctx.Cov.Note("rule", fmt.Sprintf("5 index files (one with prefix-related columns a / ab whose name+value concatenations coincide, one with columns 'first name', 'first', 'name', 'first,name') x server options {cache on/off} x {preload on/off}: every batch of length 0..%d over 11 queries (ungrouped, grouped by 1-2 columns, no match, NOT/OR/AND, an unknown column alone and next to an absent value, an AND without operands nested in an AND; for length <=2 also 3 structurally incomplete members) and 10 long batches of 4..12 and of 100 queries (expensive first) x id patterns {all 0, explicit, duplicate, mixed, explicit ids equal to later positions} is sent to a real `updog server`; the response must hold one result per query in order with the id rule and the library's count and groups (library Execute on a copy of the file), an invalid member must fail the whole call; ToResult(ToProtobufResult(r)) == r for every library result; the texts through sql.Open grpc:// and file: must give identical columns and rows (also prepared statements, and direct queries with []byte / nil / numeric arguments); non-trivial = batches of >=2 queries and the driver comparisons", maxLen))
+	ctx.Cov.Note("rule", fmt.Sprintf("6 index files (one with values of 64..300 bytes that share their first 64 / 255 bytes, one with prefix-related columns a / ab whose name+value concatenations coincide, one with columns 'first name', 'first', 'name', 'first,name') x server options {cache on/off} x {preload on/off}: every batch of length 0..%d over 11 queries (ungrouped, grouped by 1-2 columns, no match, NOT/OR/AND, an unknown column alone and next to an absent value, an AND without operands nested in an AND; for length <=2 also 3 structurally incomplete members) and 10 long batches of 4..12 and of 100 queries (expensive first) x id patterns {all 0, explicit, duplicate, mixed, explicit ids equal to later positions} is sent to a real `updog server`; the response must hold one result per query in order with the id rule and the library's count and groups (library Execute on a copy of the file), an invalid member must fail the whole call; ToResult(ToProtobufResult(r)) == r for every library result; the texts through sql.Open grpc:// and file: must give identical columns and rows (also prepared statements, and direct queries with []byte / nil / numeric arguments); non-trivial = batches of >=2 queries and the driver comparisons", maxLen))
 	ctx.Assumef("index strings are valid UTF-8 (protobuf strings cannot carry other bytes)")
 	return vs
 }
